@@ -37,7 +37,10 @@ EXPLANATION = (
     'priority -bottleneck (no decrease-key); the search loop is cut short (and '
     'the relaxation skipped) only on tests of the finalised mask at the sinks, '
     'never on a test of the tentative labels (predecessor / bottleneck) of the '
-    'sinks alone (`<popped node> in sinks` is a test of a finalised sink); the path must not be made to end at the node '
+    'sinks alone (`<popped node> in sinks` is a test of a finalised sink); every way OUT of the search loop other than its own test '
+    '(break, return, a loop flag that is only cleared where a break could stand) is judged on the disjunctive normal form of the branch '
+    'conditions that dominate it: each must imply that a sink is finalised - an empty neighbour set of the expanded node may skip its '
+    'relaxation, it must not end the search; the path must not be made to end at the node '
     'popped last when the statement that seeds it is reachable from the loop test (frontier exhausted, no sink reached) '
     'without a test; top_path and paths are judged with the module-level helpers they call written out in place '
     '(sa/inline.py; a call that is the first thing a statement evaluates is written out in front of it); (D3) the working matrix of a '
@@ -299,8 +302,18 @@ def d2_top_path(ck, mod):
             ck.missing(rule + '.pop', 'popped node is not bound to a name')
             return
         TN = pst.targets[0].id
-    v = classify(loop.test, ['0 < len(%s)' % Q, Q, 'len(%s) != 0' % Q, 'len(%s)' % Q, '1 <= len(%s)' % Q])
-    ck.decide(v, rule + '.loop', mod, loop, F, u(loop.test), 'search runs until the frontier is empty', 'the search loop must run while the queue is non-empty')
+    loop_forms = ['0 < len(%s)' % Q, Q, 'len(%s) != 0' % Q, 'len(%s)' % Q, '1 <= len(%s)' % Q]
+    v = classify(loop.test, loop_forms)
+    clears = []
+    if v[0] != 'match':
+        # `while FLAG and <frontier not empty>:` with FLAG only cleared by statements that act as `break` (see _flag_breaks):
+        # the loop test proper is the remaining conjunct, the clearings are exits of the loop (judged by _reach)
+        fb = _flag_breaks(mod, fn, fi, loop)
+        if fb is not None and len(fb[2]) == 1:
+            clears = list(fb[1])
+            v = classify(fb[2][0], loop_forms)
+    ck.decide(v, rule + '.loop', mod, loop, F, u(loop.test), 'search runs until the frontier is empty' + (
+        ' (the flag `%s` is only cleared where a `break` could stand)' % fb[0] if clears else ''), 'the search loop must run while the queue is non-empty')
 
     # --- initial state (statements before the loop)
     def init_of(name):
@@ -392,7 +405,7 @@ def d2_top_path(ck, mod):
     if v[0] != 'match':
         return
     NBX = u(canon(idx.value))                       # canonical text of the neighbour index set
-    _reach(ck, mod, fi, rule, F, loop, us, NBX, V, sinks, MF, TN, upd={fi.xu(ut.slice, strict=False), u(idx)} | upd_names)
+    _reach(ck, mod, fi, rule, F, loop, us, NBX, V, sinks, MF, TN, upd={fi.xu(ut.slice, strict=False), u(idx)} | upd_names, clears=clears)
     sel = v[1]['_SEL']
     # the relaxed values: `<val>` = NF[<sel>] where NF is the clipped edge-flux array
     val = fi.expand(val_src, strict=False)
@@ -490,7 +503,7 @@ def d2_top_path(ck, mod):
         ck.missing(rule + '.report', 'single `return <path>, <flux>`')
         return
     rp, rf = r[0].value.elts
-    _report(ck, mod, fn, fi, loop, r[0], rp, rf, sinks, MF, PN, TN)
+    _report(ck, mod, fn, fi, loop, r[0], rp, rf, sinks, MF, PN, TN, clears=clears)
 
 
 _EMPTY_ARRAYS = ('np.array([])', '[]', 'np.empty(0)', 'np.zeros(0)', 'np.array([], dtype=int)', 'np.empty(0, dtype=int)', 'np.zeros(0, dtype=int)',
@@ -544,7 +557,7 @@ def _assumes(fi, mod, stmt, within=None):
     return [a for a in fi.cfg.dom.get(stmt, ()) if isinstance(a, Assume) and (within is None or _inside(mod, a.owner, within))]
 
 
-def _reach(ck, mod, fi, rule, F, loop, us, NBX, V, sinks, MF=None, TN=None, upd=()):
+def _reach(ck, mod, fi, rule, F, loop, us, NBX, V, sinks, MF=None, TN=None, upd=(), clears=()):
     """The relaxation `us` must run for every popped node that has neighbours,
     as long as some sink is not finalised: every branch condition it depends
     on inside the search loop must be one of these two (in any spelling /
@@ -626,30 +639,87 @@ def _reach(ck, mod, fi, rule, F, loop, us, NBX, V, sinks, MF=None, TN=None, upd=
                 ck.check(verdict, rule + '.reach', mod, a.owner, F, txt, 'relaxation runs for every expanded node with neighbours while a sink is not finalised',
                          'the relaxation `%s` only runs when `%s`: nodes that have outgoing flux (or every node until all sinks are finalised) are skipped, '
                          'their neighbours never receive a bottleneck' % (u(us)[:60], txt[:80]))
-    # exits of the search loop that do not sit in front of the relaxation (their guards were judged above)
-    judged = {a.owner for a in _assumes(fi, mod, us, loop)}
-    for x in walk_local(loop):
-        if not isinstance(x, (ast.Break, ast.Return)) or (isinstance(x, ast.Break) and _loop_of(mod, x, None) is not loop):
-            continue
-        if any(_inside(mod, x, o) for o in judged):
-            continue
-        conds = [a for a in _assumes(fi, mod, x, loop) if a.owner not in judged]
-        ats = []
-        for a in conds:
-            ats += conjuncts(a.test, a.polarity) or [None]
+    # EVERY way out of the search loop other than its own test (break, return, a cleared loop flag): the search may be
+    # abandoned only when a sink is known to be finalised.  The guard that was judged above as a condition of the
+    # RELAXATION is not thereby a legitimate condition of an EXIT: `no neighbours` may skip the relaxation of the popped
+    # node (a no-op), it must not end the search - the frontier still holds the other routes.  The condition of an exit
+    # is the conjunction of the branch conditions that dominate it, each one a disjunction of conjunctions (_disjuncts);
+    # it implies "a sink is finalised" iff some branch condition has such an atom in every disjunct.
+    def atom_kind(at):
+        ps = popped_sink(at)
+        if ps is not None:
+            return 'done' if ps else 'notdone'
+        if isinstance(at, Cmp):
+            l, r = fi.xu(at.lhs, strict=False), fi.xu(at.rhs, strict=False)
+            c = at if l in count else at.flipped() if r in count else None
+            k = const_value(c.rhs) if c is not None else None
+            if c is not None and isinstance(k, int) and not isinstance(k, bool):
+                if (c.op is ast.Gt and k == 0) or (c.op is ast.NotEq and k == 0) or (c.op is ast.GtE and k == 1):
+                    return 'nonempty'
+                if (c.op is ast.Eq and k == 0) or (c.op is ast.LtE and k == 0) or (c.op is ast.Lt and k == 1):
+                    return 'empty'
+        else:
+            _, e, pol = at
+            t = fi.xu(e, strict=False)
+            if t in sink_done:
+                return 'done' if pol else 'notdone'
+            if t in count:
+                return 'nonempty' if pol else 'empty'
+        return 'labels' if labels_only(at) else None
+    exits = [x for x in walk_local(loop) if (isinstance(x, ast.Break) and _loop_of(mod, x, None) is loop) or isinstance(x, ast.Return)]
+    exits += [x for x in clears if x not in exits]
+    for x in sorted(exits, key=lambda n: getattr(n, 'lineno', 0)):
+        conds = _assumes(fi, mod, x, loop)
         txt = ' and '.join('%s%s' % ('' if a.polarity else 'not ', u(a.test)) for a in conds) or 'unconditionally'
-        done = [at for at in ats if isinstance(at, tuple) and at[2] and fi.xu(at[1], strict=False) in sink_done] + \
-            [at for at in ats if at is not None and popped_sink(at) is True]
-        lab = [at for at in ats if at is not None and labels_only(at)]
-        if done:
+        dnfs = [_disjuncts(a.test, a.polarity) for a in conds]
+        kinds = [None if d is None else [[atom_kind(at) for at in conj] for conj in d] for d in dnfs]
+        if any(k is not None and all('done' in conj for conj in k) for k in kinds):
             ck.ok(rule + '.reach', mod, x, txt, 'the search is cut short only after a sink has been finalised')
-        elif lab:
+            continue
+        # a way to this exit on which no test says that a sink is finalised: one such disjunct of every branch condition
+        free = [None if k is None else [conj for conj in k if 'done' not in conj] for k in kinds]
+        lab = any(k is not None and any('labels' in conj for conj in k) for k in free)
+        known = [None if k is None else [conj for conj in k if all(a in ('empty', 'nonempty', 'notdone') for a in conj)] for k in free]
+        witness = [k[0] for k in known if k] if all(known) else None
+        flat = [a for conj in (witness or []) for a in conj]
+        if lab:
             ck.bad(rule + '.reach', mod, x, F, txt,
                    'the search loop is left on a test of the tentative labels of the sinks alone (`%s`): a sink that has merely been DISCOVERED is not '
                    'FINALISED - frontier nodes that would still raise its bottleneck are never expanded. The search may only be cut short when a sink '
                    'has been popped (`%s[%s]`)' % (txt[:100], V, sinks))
+        elif witness is not None and 'empty' in flat and 'nonempty' not in flat:
+            ck.bad(rule + '.reach', mod, x, F, txt,
+                   'the search loop is left (`%s`) when the node just expanded has no neighbour to relax (`%s`), without any sink being known as finalised: '
+                   'an expanded node without outgoing positive flux is a dead end of ITS route only - the frontier still holds the nodes of the other routes, '
+                   'which are never expanded, so a source-to-sink path that exists is not found (flux -inf, paths() stops) or the sink keeps a tentative, '
+                   'smaller bottleneck. An empty neighbour set may skip the relaxation of that node (`continue`), it must not end the search; the only '
+                   'early exit is `%s[%s]` all / any finalised' % (u(x)[:40], txt[:100], V, sinks))
         else:
             ck.missing(rule + '.reach', 'exit `%s` of the search loop under `%s` is not modelled' % (u(x)[:40], txt[:100]))
+
+
+def _disjuncts(test, polarity=True, limit=16):
+    """Disjunctive normal form of a boolean test under `polarity`: a list of conjunctions (each a list of atoms as
+    returned by patterns.conjuncts); None if an operand cannot be split or the form grows beyond `limit` disjuncts."""
+    c = conjuncts(test, polarity)
+    if c is not None:
+        return [c]
+    if isinstance(test, ast.UnaryOp) and isinstance(test.op, ast.Not):
+        return _disjuncts(test.operand, not polarity, limit)
+    if not isinstance(test, ast.BoolOp):
+        return None
+    parts = [_disjuncts(v, polarity, limit) for v in test.values]
+    if any(p is None for p in parts):
+        return None
+    if isinstance(test.op, ast.And) != polarity:            # a disjunction under this polarity
+        out = [conj for p in parts for conj in p]
+    else:                                                     # a conjunction one operand of which is a disjunction
+        out = [[]]
+        for p in parts:
+            out = [a + b for a in out for b in p]
+            if len(out) > limit:
+                return None
+    return out if len(out) <= limit else None
 
 
 def _heap_frontier(ck, mod, fn, fi, rule, F):
@@ -748,7 +818,7 @@ def _heap_pushes(ck, mod, fi, rule, F, heap, loop, us, idx_t, V):
     ck.missing(rule + '.pop', 'set of pushed nodes `%s` is not recognised as the set of updated neighbours `%s`' % (u(fl.iter)[:100], idx_t[:80]))
 
 
-def _report(ck, mod, fn, fi, loop, ret, rp, rf, sinks, MF, PN, TN=None):
+def _report(ck, mod, fn, fi, loop, ret, rp, rf, sinks, MF, PN, TN=None, clears=()):
     """Reconstruction of the path and the reported flux.  The path list P is
     "the list the returned array is built from"; how it grows (append =
     collected sink->source, insert(0, .) = built source->sink) fixes where the
@@ -798,7 +868,7 @@ def _report(ck, mod, fn, fi, loop, ret, rp, rf, sinks, MF, PN, TN=None):
         return
     fx = fi.expand(first_expr, stop=(sinks,))
     v = classify(fx, best, scope={sinks, MF})
-    if v[0] != 'match' and TN is not None and _ends_at_popped_node(ck, mod, fi, loop, first_expr, fx, first_at, TN, sinks, MF, rule, F):
+    if v[0] != 'match' and TN is not None and _ends_at_popped_node(ck, mod, fi, loop, first_expr, fx, first_at, TN, sinks, MF, rule, F, clears=clears):
         return
     ck.decide(v, rule + '.report', mod, first_at, F, u(first_expr), 'the sink with the largest bottleneck ends the path',
               'the path must end at sinks[argmax(min_fluxes[sinks])]')
@@ -859,7 +929,7 @@ def _report(ck, mod, fn, fi, loop, ret, rp, rf, sinks, MF, PN, TN=None):
         ck.missing(rule + '.report', 'the growth step `%s` is conditional inside the back-trace loop' % u(gs))
 
 
-def _ends_at_popped_node(ck, mod, fi, loop, first_expr, fx, first_at, TN, sinks, MF, rule, F):
+def _ends_at_popped_node(ck, mod, fi, loop, first_expr, fx, first_at, TN, sinks, MF, rule, F, clears=()):
     """WRONG OPERAND in the role "end of the path": the node the search loop popped last instead of the best sink.
     The popped node is a sink only on the ways out of the loop that test it (a `break` under `<popped> in sinks`);
     the loop also ends through its own test when the frontier is exhausted - no sink reachable from the sources -
@@ -876,7 +946,8 @@ def _ends_at_popped_node(ck, mod, fi, loop, first_expr, fx, first_at, TN, sinks,
     if _inside(mod, first_at, loop):
         return False
     breaks = [x for x in walk_local(loop) if isinstance(x, ast.Break) and _loop_of(mod, x, None) is loop]
-    if not fi.cfg.reachable(loop, first_at, avoiding=breaks):
+    if clears or not fi.cfg.reachable(loop, first_at, avoiding=breaks):
+        # (a cleared loop flag leaves through the loop test: the CFG cannot tell that way out from an exhausted frontier)
         ck.missing(rule + '.report', 'the path ends at the node popped last (`%s`), reached only through a break of the search loop: '
                    'whether that node is the sink with the largest bottleneck is not decided' % u(first_expr))
         return True
